@@ -8,19 +8,22 @@ from ..gen_text import Corpus, gen_input, TEMPLATES, EXTREME_LITERALS, mutate_to
 LEVEL = "exploration"
 RULE = ("hostile text inputs: token/byte-level mutations and splices of the example and module corpus and of the "
         "@example snippets, token-alphabet soup with Unicode, a list of extreme literals/idioms and their mutations, "
+        "every prelude function called with hostile arguments (non-finite and extreme numbers with and without units, empty/odd "
+        "strings, empty and nested lists, edge dates, function values), "
         "and size-class templates (nesting, operator runs, long identifiers/strings/lists, chains) at sizes 1..1000 "
         "that must pass and 20 000 / 100 000 where unbounded recursion is a documented finding. Each input runs in a "
         "fresh fork of a prelude session (a sample also in a session with history) in the *checked* build (overflow "
         "checks, debug assertions, opcode-validity hook); every error is rendered to plain text and HTML. Panics are "
-        "captured with message and first in-crate frame, crashes by worker death, hangs by a 10 s budget confirmed by an "
-        "isolated re-run. distinct = input text; non-trivial = the input got past the tokenizer (any outcome other "
+        "captured with message and first in-crate frame, crashes by worker death, hangs by a 15 s budget confirmed by an "
+        "isolated 120 s re-run. distinct = input text; non-trivial = the input got past the tokenizer (any outcome other "
         "than a tokenizer-level parse error) or was rejected with a diagnostic that was rendered")
 EXHAUSTIVE = {"quick": False, "thorough": False}
 FLOOR = {"quick": 5000, "thorough": 100000}
 ASSUMPTIONS = ["inputs that legitimately demand unbounded resources (huge ranges, string repetition) are not generated",
-               "a timeout is a verdict only after the same input exceeds 20 s again when re-run alone"]
+               "a timeout is a verdict only after the same input exceeds 120 s again when re-run alone on a fresh worker"]
 NSHARDS = 16
-PER_INPUT_TIMEOUT = 10.0
+PER_INPUT_TIMEOUT = 15.0
+ALONE_TIMEOUT = 120.0      # generous: the first panic of a fresh worker symbolises its backtrace (slow under load)
 NEEDS_THOROUGH = ["fast"]
 
 
@@ -98,10 +101,12 @@ def run_one(w, code, base="p", timeout=PER_INPUT_TIMEOUT):
             pass
 
 
-def run_inputs(sh, w, known, codes, base="p"):
+def run_inputs(sh, w, known, codes, base="p", libcall=None):
     """run a list of inputs, each in a fresh fork; isolate crashes and hangs"""
     for code in codes:
         case = {"code": code, "base": base}
+        if libcall:
+            case["libcall"] = libcall
         try:
             r = run_one(w, code, base)
             observe(sh, known, case, r)
@@ -110,7 +115,7 @@ def run_inputs(sh, w, known, codes, base="p"):
             prepare_bases(w)
             # confirm alone on the fresh worker
             try:
-                r = run_one(w, code, base, timeout=20)
+                r = run_one(w, code, base, timeout=ALONE_TIMEOUT)
                 observe(sh, known, case, r)
                 sh.count("crash_not_reproduced")
             except WorkerDied as e2:
@@ -126,7 +131,7 @@ def run_inputs(sh, w, known, codes, base="p"):
             prepare_bases(w)
             try:
                 t0 = time.time()
-                r = run_one(w, code, base, timeout=20)
+                r = run_one(w, code, base, timeout=ALONE_TIMEOUT)
                 observe(sh, known, case, r)
                 sh.count("slow_but_finished_alone")
                 sh.count_in("slow_inputs", code[:80])
@@ -141,6 +146,9 @@ def run_inputs(sh, w, known, codes, base="p"):
 
 
 def crash(sh, known, case, rc):
+    if case.get("libcall") == "count_driven" and re.search(r"inf|e308|e30\b|2\^53|1000", case["code"]):
+        sh.count("crashes_of_count_driven_library_calls_with_huge_counts_not_judged")
+        return
     if user_recursion(case["code"]) and not case.get("template"):
         sh.count("crashes_with_user_defined_recursion_not_judged")
         return
@@ -184,6 +192,10 @@ def resource_bomb(code):
 
 
 def hang(sh, known, case):
+    if case.get("libcall") == "count_driven" and re.search(r"inf|e308|e30\b|2\^53|1000", case["code"]):
+        # `range(0, inf)`, `fibonacci(1e308)`, `str_repeat(2^53, "a")`: the caller asks for an unbounded amount of work
+        sh.count("timeouts_of_count_driven_library_calls_with_huge_counts_not_judged")
+        return
     if user_recursion(case["code"]):
         sh.count("timeouts_with_user_defined_recursion_not_judged")
         return
@@ -192,9 +204,109 @@ def hang(sh, known, case):
         return
     sh.judged()
     sh.count_in("hangs", case["code"][:80])
-    sh.violation(dict(case, code=case["code"][:2000]), f"interpreter did not finish within 20 s (twice, second time alone) on "
+    sh.violation(dict(case, code=case["code"][:2000]), f"interpreter did not finish within 120 s when run alone (after exceeding 15 s in the workload) on "
                                                         f"input {case['code'][:200]!r} (length {len(case['code'])})")
 
+
+
+# ---- stratum 4: every library function called with hostile arguments ---------------------------------------
+
+NUMS = ["0", "-0", "1", "-1", "2", "3", "10", "0.5", "-2.5", "1000", "inf", "-inf", "NaN", "1e308", "-1e308", "5e-324", "2^53",
+        "1e30", "1e-30", "-7", "255", "1/3"]
+DIM_UNITS = {"Length": "m", "Time": "s", "Mass": "kg", "Temperature": "K", "Angle": "rad", "Velocity": "m/s", "Money": "$",
+             "Frequency": "Hz", "Energy": "J", "Area": "m^2", "Volume": "L", "UnixTime": "unix_s", "Current": "A"}
+STRS = ['""', '"a"', '"abc"', '"ä€x"', '"a,b,,c"', '"  "', '"{{}}"', '"0"', '"-1e400"', '"2024-02-30"', '"%"', '"UTC"',
+        '"Europe/Berlin"', '"%Y-%m-%d %H:%M:%S"', '"%Q%"', '"H"', '"1 m"', '"' + "x" * 300 + '"', '"\\n\\t"', '"Ωµ"']
+DATES = ["now()", 'datetime("0001-01-02 00:00:00 UTC")', 'datetime("9999-12-30 00:00:00 UTC")', 'datetime("1970-01-01T00:00:00Z")',
+         'datetime("2024-03-31 02:30:00 Europe/Berlin")', 'datetime("-009000-01-01T00:00:00Z")']
+FN1 = ["sqrt", "abs", "sqr", "floor", "is_nan", "str_length", "vf_hg", "id", "ln", "factorial", "head"]
+FN2 = ["vf_first", "mod", "max2", "hypot2", "str_append", "cons"]
+COUNT_DRIVEN = {"range", "linspace", "str_repeat", "fibonacci", "lucas", "catalan", "binom", "factorial", "falling_factorial",
+                "rand_binom", "rand_poisson", "rand_geom", "rand_int", "take", "drop", "element_at", "base", "bin", "oct", "hex", "dec",
+                "line_plot", "bar_chart", "show"}
+SKIP_FUNCTIONS = {"show", "args", "inspect"}
+
+
+def split_top(text, sep=","):
+    out, depth, cur = [], 0, ""
+    for ch in text:
+        if ch in "([<":
+            depth += 1
+        elif ch in ")]>":
+            depth -= 1
+        if ch == sep and depth == 0:
+            out.append(cur)
+            cur = ""
+        else:
+            cur += ch
+    if cur.strip():
+        out.append(cur)
+    return [x.strip() for x in out]
+
+
+def param_types(sig):
+    """parameter type texts of `fn name<...>(a: T, b: U) -> R`"""
+    m = re.match(r"fn\s+\S+?(<[^(]*>)?\(", sig)
+    if not m:
+        return None
+    i = m.end()
+    depth, j = 1, i
+    while j < len(sig) and depth:
+        if sig[j] in "([":
+            depth += 1
+        elif sig[j] in ")]":
+            depth -= 1
+        j += 1
+    inner = sig[i:j - 1]
+    if not inner.strip():
+        return []
+    return [p.split(":", 1)[1].strip() if ":" in p else "Scalar" for p in split_top(inner)]
+
+
+def hostile_value(rng, ty, depth=0):
+    ty = ty.strip()
+    if ty.startswith("List<"):
+        inner = ty[5:-1]
+        n = rng.choice([0, 0, 1, 2, 3, 5])
+        return "[" + ", ".join(hostile_value(rng, inner, depth + 1) for _ in range(n)) + "]"
+    if ty.startswith("Fn["):
+        args = ty[ty.index("(") + 1:ty.index(")")]
+        return rng.choice(FN2 if "," in args else FN1)
+    if ty == "String":
+        return rng.choice(STRS)
+    if ty == "Bool":
+        return rng.choice(["true", "false"])
+    if ty == "DateTime":
+        return rng.choice(DATES)
+    x = rng.choice(NUMS)
+    for d, u in DIM_UNITS.items():
+        if d in ty:
+            return f"({x}) {u}" if "/" in x or "^" in x else f"{x} {u}"
+    if ty != "Scalar" and rng.random() < 0.4:
+        return f"({x}) m" if "/" in x or "^" in x else f"{x} m"      # generic dimension parameter
+    return x
+
+
+def run_library(sh, w, known, spec):
+    names = w.call({"op": "names", "sid": "p"})
+    fns = sorted(names["functions"])
+    rng = rng_for(spec["seed"], "C08lib", spec["idx"])
+    per_fn = 10 if spec["tier"] == "quick" else 120
+    for i, (name, sig) in enumerate(fns):
+        if i % spec["n"] != spec["idx"] or name in SKIP_FUNCTIONS:
+            continue
+        tys = param_types(sig)
+        if tys is None:
+            continue
+        sh.count("library_functions_called")
+        for _ in range(per_fn if tys else 1):
+            args = [hostile_value(rng, t) for t in tys]
+            code = f"{name}({', '.join(args)})"
+            if rng.random() < 0.15 and tys:
+                code = f"{args[-1]} |> {name}" + (f"({', '.join(args[:-1])})" if len(args) > 1 else "")
+            case_kind = "count_driven" if name in COUNT_DRIVEN else None
+            run_inputs(sh, w, known, [code], "hist", libcall=case_kind)
+            sh.count("library_calls")
 
 HISTORY = """
 let vf_h1 = 3 km
@@ -205,6 +317,8 @@ let vf_hs = VfH { a: 1 m, b: 2 }
 dimension VfHD = Length * Time
 let vf_hl = [1 m, 2 m, 3 m]
 fn vf_hg<D: Dim>(x: D) -> D = x
+fn vf_first(a, b) = a
+fn max2(a, b) = if a > b then a else b
 """
 
 
@@ -262,6 +376,8 @@ def run_shard(sh, spec):
             prepare_bases(w)
             sh.count_in("big_templates", "slow(>60s)")
             sh.inconclusive_case("big template slower than 60 s", {"template": t.__name__, "size": size}) if False else None
+    # 4. every library function with hostile arguments
+    run_library(sh, w, known, spec)
     # 3. random hostile inputs
     for k in range(spec["count"]):
         code = gen_input(rng, corpus)
